@@ -10,7 +10,7 @@ Options of `CiscoRange` on an integer range (ccp_util.py), on top of `Ccp.Model.
 * `insert` (always `NotImplementedError`).
 
 The code is mirrored as it is: `append` sorts with `sorted(new_list)` (duplicates survive),
-so `append(v, ignore_errors=True)` of a member leaves the member twice in `data`.
+so (before fix aef5a7a) `append(v, ignore_errors=True)` of a member left the member twice in `data`; the repaired code returns at once.
 -/
 namespace Ccp.RangeX
 open Ccp.Py Ccp.Range
@@ -123,8 +123,10 @@ def appendX (d : List Nat) (v : Val) (sort ign : Bool) : Except XErr (List Nat) 
   else if v.isIn d = true ∧ ign = false then .error (.base .duplicate)
   else match v with
     | .junk => .ok d          -- int("abc") raises inside the try: logged, skipped
-    | .int n => .ok (if sort then sortDup (d ++ [n]) else d ++ [n])
-    | .strOf n => .ok (if sort then sortDup (d ++ [n]) else d ++ [n])
+    -- a value that is a member already (only reachable with ignore_errors: the duplicate check above raised otherwise)
+    -- is not added again (`if new_list[-1] in self.data: return self`, fix aef5a7a)
+    | .int n => .ok (if d.contains n then d else if sort then sortDup (d ++ [n]) else d ++ [n])
+    | .strOf n => .ok (if d.contains n then d else if sort then sortDup (d ++ [n]) else d ++ [n])
 
 /-- `remove(arg, ignore_errors=ign)`; `absent` stands for the exception family of a failed
 removal (MismatchedType, UnboundLocalError, ValueError by path) -/
